@@ -18,6 +18,8 @@
 
 use std::collections::{BTreeMap, BTreeSet};
 use std::io::Write;
+
+use slog::Drain as _;
 use std::path::{Path, PathBuf};
 use std::sync::Arc;
 
@@ -25,7 +27,7 @@ use mithril_cardano_node_internal_database::entities::AncillaryFilesManifest;
 use mithril_client::{AggregatorDiscoveryType, ClientBuilder, GenesisVerificationKey};
 use mithril_client::cardano_database_client::{CardanoDatabaseClient, DownloadUnpackOptions, ImmutableFileRange};
 use mithril_client::feedback::FeedbackSender;
-use mithril_client::file_downloader::HttpFileDownloader;
+use mithril_client::file_downloader::{FileDownloadRetryPolicy, HttpFileDownloader, RetryDownloader};
 use mithril_common::crypto_helper::{ManifestSigner, ManifestVerifierSecretKey};
 use mithril_common::messages::CardanoDatabaseSnapshotMessage;
 use proptest::prelude::*;
@@ -984,6 +986,42 @@ fn build_world(c: &Case, root: &Path, http_base: Option<&str>, rep: &mut Report)
 // running the real client
 // ------------------------------------------------------------------------------------------------
 
+// the client's own error/warning log lines of the current case (diagnostics only, never part of a verdict)
+thread_local! {
+    static LOGS: std::cell::RefCell<Vec<String>> = const { std::cell::RefCell::new(Vec::new()) };
+}
+
+struct CaptureDrain;
+
+struct KvText(String);
+
+impl slog::Serializer for KvText {
+    fn emit_arguments(&mut self, key: slog::Key, val: &std::fmt::Arguments) -> slog::Result {
+        use std::fmt::Write as _;
+        let _ = write!(self.0, " {key}={val}");
+        Ok(())
+    }
+}
+
+impl slog::Drain for CaptureDrain {
+    type Ok = ();
+    type Err = slog::Never;
+    fn log(&self, record: &slog::Record, _values: &slog::OwnedKVList) -> Result<(), slog::Never> {
+        if record.level().is_at_least(slog::Level::Error) {
+            use slog::KV;
+            let mut kv = KvText(String::new());
+            let _ = record.kv().serialize(record, &mut kv);
+            let line: String = format!("{}{}", record.msg(), kv.0).chars().take(700).collect();
+            LOGS.with(|l| l.borrow_mut().push(line));
+        }
+        Ok(())
+    }
+}
+
+fn take_logs() -> String {
+    LOGS.with(|l| l.borrow_mut().drain(..).collect::<Vec<_>>().join(" | "))
+}
+
 thread_local! {
     /// memoized clients (one per configured ancillary verification key): building one loads the system
     /// certificate store twice, which would dominate the cost of a case. They hold no per-download state.
@@ -997,12 +1035,16 @@ fn client_for(w: &World) -> Result<Arc<CardanoDatabaseClient>, String> {
                 return Ok(c.clone());
             }
         }
-        let logger = slog::Logger::root(slog::Discard, slog::o!());
+        let logger = slog::Logger::root(std::sync::Mutex::new(CaptureDrain).fuse(), slog::o!());
         let downloader =
             HttpFileDownloader::new(FeedbackSender::new(&[]), logger.clone()).map_err(|e| format!("HARNESS downloader: {e:#}"))?;
         let client = ClientBuilder::new(AggregatorDiscoveryType::Url("http://127.0.0.1:9/aggregator".to_string()))
             .set_genesis_verification_key(GenesisVerificationKey::JsonHex(w.genesis_vk.clone()))
-            .with_http_file_downloader(Arc::new(downloader))
+            // same stack as ClientBuilder's default (retry wrapper around the HTTP downloader), without the 5 s pauses
+            .with_http_file_downloader(Arc::new(RetryDownloader::new(
+                Arc::new(downloader),
+                FileDownloadRetryPolicy { attempts: 3, delay_between_attempts: std::time::Duration::ZERO },
+            )))
             .set_ancillary_verification_key(w.ancillary_vk.clone())
             .with_logger(logger)
             .build()
@@ -1016,6 +1058,7 @@ fn client_for(w: &World) -> Result<Arc<CardanoDatabaseClient>, String> {
 }
 
 fn run_client(w: &World, after_call: impl FnOnce()) -> Result<Result<(), String>, String> {
+    let _ = take_logs();
     catch(|| {
         let rt = tokio::runtime::Builder::new_current_thread().enable_all().build().expect("runtime");
         let res = rt.block_on(async {
@@ -1213,6 +1256,26 @@ fn judge(
         }
     };
 
+    // (3) nothing outside of the target directory
+    if world_before != world_after {
+        let mut diff = vec![];
+        for (p, n) in world_after {
+            if world_before.get(p) != Some(n) {
+                diff.push(format!("{p}={n:?}"));
+            }
+        }
+        for p in world_before.keys() {
+            if !world_after.contains_key(p) {
+                diff.push(format!("{p} removed"));
+            }
+        }
+        // narrower key for the one known way out: the final move of verified ancillary files follows a symlink
+        let via_symlink = matches!(after.get("ledger"), Some(Node::Symlink(_))) && diff.iter().all(|d| d.starts_with("ldir/"));
+        v.add(
+            if via_symlink { "ancillary-move-follows-symlink-out-of-target" } else { "file-written-outside-target-dir" },
+            format!("the directory around the target changed: {}", diff.join(", ")),
+        );
+    }
     // (1) everything new or changed must be allowed
     let mut offenders: BTreeMap<&'static str, Vec<String>> = BTreeMap::new();
     for (path, node) in after {
@@ -1256,26 +1319,6 @@ fn judge(
             Some(_) => {} // overwritten: either allowed or already reported by (1)
         }
     }
-    // (3) nothing outside of the target directory
-    if world_before != world_after {
-        let mut diff = vec![];
-        for (p, n) in world_after {
-            if world_before.get(p) != Some(n) {
-                diff.push(format!("{p}={n:?}"));
-            }
-        }
-        for p in world_before.keys() {
-            if !world_after.contains_key(p) {
-                diff.push(format!("{p} removed"));
-            }
-        }
-        // narrower key for the one known way out: the final move of verified ancillary files follows a symlink
-        let via_symlink = matches!(after.get("ledger"), Some(Node::Symlink(_))) && diff.iter().all(|d| d.starts_with("ldir/"));
-        v.add(
-            if via_symlink { "ancillary-move-follows-symlink-out-of-target" } else { "file-written-outside-target-dir" },
-            format!("the directory around the target changed: {}", diff.join(", ")),
-        );
-    }
 }
 
 fn short(r: &Result<(), String>) -> String {
@@ -1314,6 +1357,8 @@ fn order_sensitive(c: &Case) -> bool {
         || c.anc.alter != Alter::None
         || c.imm_extras.iter().any(|e| !free(&e.kind))
         || (has(Extra::LedgerFlat) && has(Extra::LedgerNested))
+        // two archives unpacked concurrently must not create the same path (remove-then-create races inside tar)
+        || (0..c.imm_extras.len()).any(|i| c.imm_extras[..i].iter().any(|e| e.kind == c.imm_extras[i].kind))
 }
 
 fn case_fn(c: &Case, known: &BTreeSet<String>) -> Report {
@@ -1405,7 +1450,10 @@ fn evaluate(c: &Case, known: &BTreeSet<String>) -> (Report, BTreeSet<String>) {
     if honest_case && compatible && !refusal_possible {
         rep.label("honest-expected-ok");
         match &result {
-            Err(e) => v.add("honest-download-failed", format!("a download from honest mirrors failed: {}", e.chars().take(300).collect::<String>())),
+            Err(e) => v.add(
+                "honest-download-failed",
+                format!("a download from honest mirrors failed: {} [client log: {}]", e.chars().take(300).collect::<String>(), take_logs()),
+            ),
             Ok(()) => {
                 let mut expected: BTreeMap<String, Node> = before.clone();
                 for (p, h) in &w.honest {
@@ -1590,7 +1638,8 @@ fn abort_case_fn(a: &AbortCase, known: &BTreeSet<String>) -> Report {
             }
         });
         s.spawn(|| {
-            if let Some(mut f) = open_fifo_writer(&imm_fifo, &release) {
+            // every (re)try of the client gets garbage, the first one only once the ancillary download is in flight
+            while let Some(mut f) = open_fifo_writer(&imm_fifo, &release) {
                 for _ in 0..10_000 {
                     if temp_dir_has_file(&w.target) {
                         inflight.store(true, Ordering::SeqCst);
@@ -1603,6 +1652,8 @@ fn abort_case_fn(a: &AbortCase, known: &BTreeSet<String>) -> Report {
                 }
                 let _ = f.write_all(b"this is not a compressed tar archive, the mirror serves garbage for this immutable file");
                 drop(f);
+                // let the reader see EOF before offering the next attempt
+                std::thread::sleep(std::time::Duration::from_millis(2));
             }
         });
         result = run_client(&w, || release.store(true, Ordering::SeqCst));
